@@ -1,0 +1,3 @@
+//! Verification hooks (only compiled with `--cfg rnacos_verif`).
+//! Read-only accessors and constructors used by the /verif correspondence harness.
+//! Nothing here is reachable from the normal build.
